@@ -397,14 +397,34 @@ def generate(rng, index, tier):
             rng, n_dim_total=n_mech, allow_cov=False)), n_sim)
         recipes.append({'h': 'fpop', 'kind': 'pop', 'pop': fpop,
                         'n_ids': n_sim})
-        ts = rng.sample([0.5, 1.0, 2.0, 3.0], rng.randint(1, 3))
+        ts = rng.sample([0.5, 1.0, 2.0, 3.0, 4.5], rng.randint(1, 4))
+        fdat = [[_vals(rng, 4, 0.3, 2.0) for _ in range(3)]
+                for _ in range(3)]
+        user_filter = None
+        if rng.random() < 0.6:
+            # any of the filter classes, also a composite over two groups
+            # of time points; the times are in no particular order
+            from .c19 import FILTERS
+            user_filter = 'fflt'
+            d = [[row[:len(ts)] for row in ind[:n_out]] for ind in fdat]
+            if len(ts) >= 2 and rng.random() < 0.5:
+                cut = rng.randint(1, len(ts) - 1)
+                recipes.append({
+                    'h': 'fflt', 'kind': 'filter', 'cls': 'COMP', 'subs': [
+                        {'cls': rng.choice(sorted(FILTERS)),
+                         'data': [[row[:cut] for row in ind] for ind in d]},
+                        {'cls': rng.choice(sorted(FILTERS)),
+                         'data': [[row[cut:] for row in ind] for ind in d]}]})
+            else:
+                recipes.append({'h': 'fflt', 'kind': 'filter',
+                                'cls': rng.choice(sorted(FILTERS)),
+                                'data': d})
         recipes.append({
             'h': 'fp', 'kind': 'filterpost', 'mech': 'm', 'pop': 'fpop',
             'times': ts, 'n_sim': n_sim, 'sigma': rng.random() < 0.4,
-            'log_scale': rng.random() < 0.3,
+            'log_scale': rng.random() < 0.3, 'filter': user_filter,
             'prior': {'kind': 'gaussian', 'a': 0.5, 'b': 2.0},
-            'data': [[_vals(rng, 3, 0.3, 2.0) for _ in range(3)]
-                     for _ in range(3)]})
+            'data': fdat})
         targets = ['fp']
     t = Table(recipes)
     points = {}
